@@ -8,7 +8,8 @@ ID = 'C11'
 DOMAIN = 'gin/state'
 PROPS_FILES = ['Gin/Props/C11.lean']
 ANCHOR_FILES = ['config.py', 'selector_map.py']
-RULE = ('2-4 registered probes with random signatures and allow/deny lists (sometimes a class whose method was '
+RULE = ('[fn probes under functools.wraps layers; class probes whose base defines the other constructor with *args/**kwargs; registered methods with their own allow/deny list] '
+        '2-4 registered probes with random signatures and allow/deny lists (sometimes a class whose method was '
         'registered first), then 6-14 binding attempts drawn from {valid, unknown configurable, unknown parameter, '
         'not allowlisted, denylisted, method without class, ambiguous spelling} x {tuple, list, string key, config '
         'text, block, finalize hook} x random scope, the whole store observed after every attempt; non-trivial = at '
@@ -27,6 +28,8 @@ def gen_case(rng):
   for r in regs:   # C11 only binds: a pass-through decorator under gin must not widen what is bindable
     if r['_kind'] == 'fn' and rng.random() < 0.3:
       r['_decorated'] = rng.choice([1, 1, 2, 3])
+    if r['_kind'] in ('init', 'new') and rng.random() < 0.4:
+      r['_mixin'] = True   # a base class defines the *other* constructor with *args/**kwargs: it is not the one that counts
   ops = list(regs)
   bindable = list(regs)
   if rng.random() < 0.35:
